@@ -74,6 +74,9 @@ CONSTRAINT Constraint
 
 def _optimizer_space(tier):
     """(maxlen, start, alpha) triples explored exhaustively by TLC."""
+    import os
+    if os.environ.get('VERIF_OPT_SPACE'):        # debugging aid: "len,start,alpha;..."
+        return [tuple(int(x) for x in part.split(',')) for part in os.environ['VERIF_OPT_SPACE'].split(';')]
     if tier == 'quick':
         return [(2, 1, 1), (3, 3, 2), (2, 2, 3), (2, 4, 4), (4, 3, 5), (2, 12, 13), (4, 1, 14)]
     return [(3, 1, 1), (4, 3, 2), (3, 2, 3), (3, 2, 1), (3, 4, 4), (5, 3, 5),
@@ -278,7 +281,17 @@ def _mutseq_check(prop, tier, judge_name):
             for cls, detail in fails:
                 clause = ('RebuildsNotWorse' if cls == 'more-rebuilds-than-unbatched'
                           else 'OneRebuildPerMergeableRun')
-                report.fail({'class': cls, 'predicted_by_spec': clause in rec['viol']},
+                fp18 = {'class': cls, 'predicted_by_spec': clause in rec['viol']}
+                if cls == 'mergeable-run-rebuilt-twice':
+                    # a many-to-many field added / deleted inside the run: its own table is
+                    # created / dropped by a plain statement between the two halves of the run
+                    start_fields = (start_sig.get(seq[0]['m']) or {}).get('fields', {}) if seq else {}
+                    fp18['m2m_change_in_run'] = any(
+                        (mu_['k'] == 'Add' and mu_['ftype'] == 'M2M') or
+                        (mu_['k'] == 'Del' and any((ms_.get('fields') or {}).get(mu_['f'], {}).get('ftype') == 'M2M'
+                                                   for ms_ in start_sig.values()))
+                        for mu_ in seq)
+                report.fail(fp18,
                             {'sequence': label, 'start': rec['start'],
                              'observed': detail, 'abstract_seq': seq})
             # binding of the rebuild plan
